@@ -288,6 +288,88 @@ fn hand_history(rng: &mut Rng, n_ops: usize) -> Hist {
     Hist { world, txs, note: format!("hand n_c={n_c} ops={n_ops} max_len={max_len} fault={fault_pm}"), clear_cache_run: true }
 }
 
+/// Directed edge cases (always run): one contract, one transaction, a fixed instruction sequence.
+/// Keys: K = 0x40.. (quad block), D = K+6 (dynamic), M = 2^256-2.
+fn edge_histories() -> Vec<Hist> {
+    let base = AssetId::from([0x22; 32]);
+    let id = ContractId::from([0x5A; 32]);
+    let mut data = vec![];
+    let call_off = data.len(); data.extend(Call::new(id, 0, 0).to_bytes());
+    let asset_off = data.len(); data.extend_from_slice(base.as_ref());
+    let key_off = data.len();
+    let mut k = [0x33u8; 32]; k[31] = 0x40;
+    for i in 0..8u8 { let mut ki = k; ki[31] = 0x40 + i; data.extend(ki); }
+    for i in 0..4u8 { let mut ki = [0xFFu8; 32]; ki[31] = 0xFC + i; data.extend(ki); }
+    let blob_off = data.len(); data.extend((0..=255u8).collect::<Vec<u8>>()); data.extend((0..=255u8).rev().collect::<Vec<u8>>());
+    let lay = Layout { data, call_off: vec![call_off], asset_off, key_off, n_keys: 12, blob_off, blob_len: 512 };
+    let key = |out: &mut Vec<Asm>, t: u8, i: usize| addr(out, t, lay.key_off + 32 * i);
+    let blob = |out: &mut Vec<Asm>, t: u8, o: usize| addr(out, t, lay.blob_off + o);
+    let local = |out: &mut Vec<Asm>, t: u8, o: u16| out.push(Asm::I(op::addi(t, RegId::SSP, o)));
+    let (d, s) = (0x10u8, 0x11u8);
+    type Prog = Vec<Asm>;
+    let mut progs: Vec<(&str, u64, Prog)> = vec![];
+    // absent slot + destination that is not writable: $err = 1, no panic
+    { let mut p = vec![]; key(&mut p, T[0], 3); p.push(Asm::I(op::move_(T[1], R_DATA))); p.push(Asm::I(op::movi(T[2], 0))); p.push(Asm::I(op::movi(T[3], 8)));
+      p.push(Asm::I(op::srdd(T[1], T[0], T[2], T[3]))); progs.push(("srdd-absent-unwritable-destination", 1 << 20, p)); }
+    // present slot, slice out of bounds AND destination not writable: StorageOutOfBounds wins
+    { let mut p = vec![]; key(&mut p, T[0], 6); blob(&mut p, T[1], 0); p.push(Asm::I(op::swri(T[0], T[1], 16)));
+      p.push(Asm::I(op::move_(T[1], R_DATA))); p.push(Asm::I(op::movi(T[2], 10))); p.push(Asm::I(op::movi(T[3], 8))); p.push(Asm::I(op::srdd(T[1], T[0], T[2], T[3])));
+      progs.push(("srdd-out-of-bounds-before-destination-check", 1 << 20, p)); }
+    // SRWQ: slot of wrong length AND destination not writable: the memory check comes first
+    { let mut p = vec![]; key(&mut p, T[0], 6); blob(&mut p, T[1], 0); p.push(Asm::I(op::swri(T[0], T[1], 40)));
+      p.push(Asm::I(op::move_(T[1], R_DATA))); p.push(Asm::I(op::movi(T[2], 1))); p.push(Asm::I(op::srwq(T[1], s, T[0], T[2])));
+      progs.push(("srwq-destination-check-before-length-check", 1 << 20, p)); }
+    // SRWQ over a wrong-length slot with a good destination: StorageOutOfBounds
+    { let mut p = vec![]; key(&mut p, T[0], 6); blob(&mut p, T[1], 0); p.push(Asm::I(op::swri(T[0], T[1], 31)));
+      local(&mut p, T[1], 0); p.push(Asm::I(op::movi(T[2], 1))); p.push(Asm::I(op::srwq(T[1], s, T[0], T[2]))); progs.push(("srwq-wrong-length", 1 << 20, p)); }
+    // ranges at the end of the key space: exactly fitting (2 slots from 2^256-2), then one too many
+    { let mut p = vec![]; key(&mut p, T[0], 10); blob(&mut p, T[1], 0); p.push(Asm::I(op::movi(T[2], 2))); p.push(Asm::I(op::swwq(T[0], s, T[1], T[2])));
+      local(&mut p, T[1], 64); p.push(Asm::I(op::srwq(T[1], s, T[0], T[2]))); p.push(Asm::I(op::scwq(T[0], s, T[2])));
+      p.push(Asm::I(op::movi(T[2], 3))); p.push(Asm::I(op::scwq(T[0], s, T[2]))); progs.push(("range-ends-at-last-key-then-overflows-scwq", 1 << 20, p)); }
+    { let mut p = vec![]; key(&mut p, T[0], 10); blob(&mut p, T[1], 0); p.push(Asm::I(op::movi(T[2], 3))); p.push(Asm::I(op::swwq(T[0], s, T[1], T[2])));
+      progs.push(("swwq-overflow-after-partial-writes", 1 << 20, p)); }
+    { let mut p = vec![]; key(&mut p, T[0], 11); p.push(Asm::I(op::movi(T[2], 1))); p.push(Asm::I(op::sclr(T[0], T[2]))); p.push(Asm::I(op::movi(T[2], 2))); p.push(Asm::I(op::sclr(T[0], T[2])));
+      progs.push(("sclr-last-key-then-overflow", 1 << 20, p)); }
+    { let mut p = vec![]; key(&mut p, T[0], 10); local(&mut p, T[1], 0); p.push(Asm::I(op::movi(T[2], 3))); p.push(Asm::I(op::srwq(T[1], s, T[0], T[2]))); progs.push(("srwq-overflow", 1 << 20, p)); }
+    // slot counts / lengths / offsets that do not fit 32 bits
+    { let mut p = vec![]; key(&mut p, T[0], 0); load64(&mut p, T[2], 1 << 32); p.push(Asm::I(op::sclr(T[0], T[2]))); progs.push(("sclr-count-2^32", 1 << 20, p)); }
+    { let mut p = vec![]; key(&mut p, T[0], 6); blob(&mut p, T[1], 0); load64(&mut p, T[2], 1 << 32); p.push(Asm::I(op::swrd(T[0], T[1], T[2]))); progs.push(("swrd-length-2^32", 1 << 20, p)); }
+    { let mut p = vec![]; key(&mut p, T[0], 6); local(&mut p, T[1], 0); load64(&mut p, T[2], 1 << 32); p.push(Asm::I(op::movi(T[3], 0))); p.push(Asm::I(op::srdd(T[1], T[0], T[2], T[3]))); progs.push(("srdd-offset-2^32", 1 << 20, p)); }
+    // append on an absent slot, append again, update in the middle, update leaving a gap
+    { let mut p = vec![]; key(&mut p, T[0], 7); blob(&mut p, T[1], 0); p.push(Asm::I(op::not(T[2], RegId::ZERO)));
+      p.push(Asm::I(op::supi(T[0], T[1], T[2], 5))); blob(&mut p, T[1], 100); p.push(Asm::I(op::supi(T[0], T[1], T[2], 7)));
+      p.push(Asm::I(op::movi(T[2], 3))); p.push(Asm::I(op::supi(T[0], T[1], T[2], 4))); p.push(Asm::I(op::spld(d, T[0])));
+      p.push(Asm::I(op::movi(T[2], 13))); p.push(Asm::I(op::supi(T[0], T[1], T[2], 1))); progs.push(("supi-append-update-gap", 1 << 20, p)); }
+    // empty value: written, present with length 0, read of 0 bytes, word read out of bounds
+    { let mut p = vec![]; key(&mut p, T[0], 2); blob(&mut p, T[1], 0); p.push(Asm::I(op::swri(T[0], T[1], 0))); p.push(Asm::I(op::spld(d, T[0])));
+      local(&mut p, T[1], 0); p.push(Asm::I(op::movi(T[2], 0))); p.push(Asm::I(op::srdi(T[1], T[0], T[2], 0))); p.push(Asm::I(op::srw(d, s, T[0], 0))); progs.push(("empty-value", 1 << 20, p)); }
+    // register faults: SWW writes the slot, then fails on the reserved flag register; SRW with a = b; SPLD into $zero
+    { let mut p = vec![]; key(&mut p, T[0], 1); p.push(Asm::I(op::sww(T[0], 0x01, RegId::ONE))); progs.push(("sww-reserved-flag-register", 1 << 20, p)); }
+    { let mut p = vec![]; key(&mut p, T[0], 1); p.push(Asm::I(op::srw(d, d, T[0], 0))); progs.push(("srw-same-register", 1 << 20, p)); }
+    { let mut p = vec![]; key(&mut p, T[0], 1); p.push(Asm::I(op::spld(RegId::ZERO, T[0]))); p.push(Asm::I(op::sww(T[0], s, RegId::ONE))); p.push(Asm::I(op::spld(RegId::ZERO, T[0]))); progs.push(("spld-into-zero", 1 << 20, p)); }
+    // slot-length limit below 32: legacy word / quad writes are refused
+    { let mut p = vec![]; key(&mut p, T[0], 1); p.push(Asm::I(op::sww(T[0], s, RegId::ONE))); progs.push(("sww-with-limit-16", 16, p)); }
+    { let mut p = vec![]; key(&mut p, T[0], 1); blob(&mut p, T[1], 0); p.push(Asm::I(op::movi(T[2], 1))); p.push(Asm::I(op::swwq(T[0], s, T[1], T[2]))); progs.push(("swwq-with-limit-16", 16, p)); }
+    // limit 64: a 64-byte value fits, 65 does not; an update growing beyond the limit is refused
+    { let mut p = vec![]; key(&mut p, T[0], 6); blob(&mut p, T[1], 0); p.push(Asm::I(op::swri(T[0], T[1], 64))); p.push(Asm::I(op::not(T[2], RegId::ZERO))); p.push(Asm::I(op::supi(T[0], T[1], T[2], 1)));
+      progs.push(("limit-64-append-refused", 64, p)); }
+    { let mut p = vec![]; key(&mut p, T[0], 6); blob(&mut p, T[1], 0); p.push(Asm::I(op::swri(T[0], T[1], 65))); progs.push(("limit-64-write-65", 64, p)); }
+    let mut out = vec![];
+    for (name, max_len, body) in progs {
+        let mut world = World::new(GasSchedule::Default, 5, vec![base]);
+        world.params.set_script_params(ScriptParameters::DEFAULT.with_max_storage_slot_length(max_len));
+        let mut items = vec![]; prologue(&mut items); items.extend(body); items.push(Asm::I(op::ret(RegId::ONE)));
+        let words = assemble(&items).expect("assemble");
+        let mut k3 = [0x33u8; 32]; k3[31] = 0x40;   // key 0 present (32 bytes)
+        world.deploy(ContractDef { id, code: words_to_bytes(&words), balances: vec![], slots: vec![(k3, vec![7u8; 32])] });
+        let mut sitems = vec![]; prologue(&mut sitems); call_item(&mut sitems, &lay, 0); sitems.push(Asm::I(op::ret(RegId::ONE)));
+        let mut tx = TxSpec::new(words_to_bytes(&assemble(&sitems).expect("assemble")), lay.data.clone(), 20_000_000);
+        tx.coins.push((base, 1000)); tx.contract_inputs = vec![id];
+        out.push(Hist { world, txs: vec![tx.clone(), tx], note: format!("hand edge {name}"), clear_cache_run: true });
+    }
+    out
+}
+
 fn generated_history(rng: &mut Rng) -> Hist {
     let mut cfg = GenCfg::default();
     cfg.n_contracts = rng.range(1, 3) as usize;
@@ -536,6 +618,7 @@ fn oracle(out: &mut Out, h: &Hist, runs: &[TxRun], replay: &Value) {
             }
             if !exact { continue; }
             let exp = reference(&mut m, pre, p, t.max_len);
+            out.count(if exp == Exp::Skip { "oracle-reference-left-to-other-subsystem" } else { "oracle-reference-decided" });
             let observed_panic = post.outcome.panic_reason();
             if observed_panic == Some(PanicReason::OutOfGas) { exact = false; continue; }
             match exp {
@@ -618,6 +701,13 @@ fn process(out: &mut Out, _args: &Args, h: &Hist, idx: usize) {
         Err(p) => { out.oracle_fail("host-panic-in-storage-history", &format!("history {idx}: host panic {p}"), replay); return; }
     };
     oracle(out, h, &runs, &replay);
+    // first transaction also through vmtrace::trace (same world): the two steppers must agree
+    if let Some(tx0) = h.txs.first() {
+        match guarded(|| trace(&h.world, tx0, &TraceOpts { max_steps: 30_000, mem_diff: false, storage: true, frames: false })) {
+            Ok(Ok(t)) => { let d = cross_check(&t, &runs[0].run); if !d.is_empty() { out.count("probe-differs-from-vmtrace"); if out.notes.len() < 5 { out.notes.push(format!("history {idx}: probe vs vmtrace::trace: {d:?}")); } } else { out.count("probe-agrees-with-vmtrace"); } }
+            _ => out.count("vmtrace-trace-failed"),
+        }
+    }
     if h.clear_cache_run {
         match guarded(|| run_history(h, true)) {
             Ok(Ok(r2)) => oracle_cache(out, h, &runs, &r2, &replay),
@@ -643,7 +733,8 @@ fn process(out: &mut Out, _args: &Args, h: &Hist, idx: usize) {
     let coq = coq_history(h, &runs);
     let key = format!("{:x}", { use sha2::Digest; sha2::Sha256::digest(coq.as_bytes()) });
     out.push(Case { coq, json: json!({"note": h.note, "transactions": runs.len(), "storage_steps": n_steps, "ops": ops, "panics": panics}),
-                    key, nontrivial: n_steps >= 5 && writes >= 1 && ops.len() >= 3, class: if h.note.starts_with("hand") { "hand-built".into() } else { "generated".into() } });
+                    key, nontrivial: (n_steps >= 5 && writes >= 1 && ops.len() >= 3) || h.note.starts_with("hand edge"),
+                    class: if h.note.starts_with("hand edge") { "edge".into() } else if h.note.starts_with("hand") { "hand-built".into() } else { "generated".into() } });
 }
 
 fn main() {
@@ -657,9 +748,19 @@ fn main() {
         process(&mut out, &args, &h, 0);
     } else {
         let mut rng = Rng::new(args.seed ^ 0x33);
-        let n_hand = args.scale(24, 600);
-        let n_gen = args.scale(16, 500);
-        for i in 0..n_hand { let n_ops = *rng.pick(&[6usize, 12, 20, 30]); let h = hand_history(&mut rng, n_ops); process(&mut out, &args, &h, i); }
+        for (i, h) in edge_histories().iter().enumerate() { process(&mut out, &args, h, 10_000 + i); }
+        let n_hand = args.scale(24, 300);
+        let n_gen = args.scale(16, 200);
+        for i in 0..n_hand {
+            let n_ops = *rng.pick(&[6usize, 12, 20, 30]); let h = hand_history(&mut rng, n_ops);
+            if args.extra.contains_key("selfreplay") {
+                // the replay encoding must reproduce the same trace
+                let h2 = hist_from_json(&hist_json(&h)).expect("replay decoding");
+                let (a, b) = (run_history(&h, false), run_history(&h2, false));
+                if let (Ok(a), Ok(b)) = (a, b) { if coq_history(&h, &a) != coq_history(&h2, &b) { eprintln!("history {i}: replay differs"); } else { eprintln!("history {i}: replay identical"); } }
+            }
+            process(&mut out, &args, &h, i);
+        }
         for i in 0..n_gen { let h = generated_history(&mut rng); process(&mut out, &args, &h, n_hand + i); }
     }
     out.write(&args, "From Coq Require Import Uint63.\nFrom FV Require Import Base.Bytes Vm.KvSpec Vm.KvModel Run.KvLit Run.Kv.\nOpen Scope N_scope.", "khist", "bad_khists");
